@@ -79,6 +79,8 @@ type fsckView struct {
 	idxSize map[uint32]int64
 	priRecs map[uint32][]priRecord
 	priSize map[uint32]int64
+	idxTorn map[uint32]int64 // first offset that does not parse (-1: file walks to its end)
+	priTorn map[uint32]int64
 	free    []idxEntry // freelist file entries (Off,Size)
 	freeGC  []idxEntry
 	defects []FsckDefect
@@ -210,7 +212,8 @@ func parseFreeList(data []byte) ([]idxEntry, bool) {
 }
 
 func loadFsck(fs *vos.MemFS, cfg Config) *fsckView {
-	v := &fsckView{fs: fs, cfg: cfg, idxRecs: map[uint32][]idxRecord{}, idxSize: map[uint32]int64{}, priRecs: map[uint32][]priRecord{}, priSize: map[uint32]int64{}}
+	v := &fsckView{fs: fs, cfg: cfg, idxRecs: map[uint32][]idxRecord{}, idxSize: map[uint32]int64{}, priRecs: map[uint32][]priRecord{}, priSize: map[uint32]int64{},
+		idxTorn: map[uint32]int64{}, priTorn: map[uint32]int64{}}
 	if data, ok := fs.ReadFileRaw(idxPath + ".info"); ok {
 		if err := json.Unmarshal(data, &v.ih); err != nil {
 			v.bad("HDR", "index header does not parse: %v (%q)", err, data)
@@ -236,14 +239,15 @@ func loadFsck(fs *vos.MemFS, cfg Config) *fsckView {
 			recs, torn := parseIndexFile(data, n)
 			v.idxRecs[n] = recs
 			v.idxSize[n] = int64(len(data))
-			_ = torn
+			v.idxTorn[n] = torn
 		}
 	}
 	if cfg.Primary == "cid" {
 		if data, ok := fs.ReadFileRaw(dataPath); ok {
-			recs, _ := parsePrimaryFile(cfg, data, 0)
+			recs, torn := parsePrimaryFile(cfg, data, 0)
 			v.priRecs[0] = recs
 			v.priSize[0] = int64(len(data))
+			v.priTorn[0] = torn
 		}
 	} else if v.hasPH {
 		for n := v.ph.FirstFile; ; n++ {
@@ -251,9 +255,10 @@ func loadFsck(fs *vos.MemFS, cfg Config) *fsckView {
 			if !ok {
 				break
 			}
-			recs, _ := parsePrimaryFile(cfg, data, n)
+			recs, torn := parsePrimaryFile(cfg, data, n)
 			v.priRecs[n] = recs
 			v.priSize[n] = int64(len(data))
+			v.priTorn[n] = torn
 		}
 	}
 	if data, ok := fs.ReadFileRaw(idxPath + ".free"); ok {
@@ -455,13 +460,34 @@ func sameListContent(v *fsckView, a, b uint64) bool {
 	return bytes.Equal(ra.Raw, rb.Raw)
 }
 
+// checkWalkable (group F0): in a state that no crash produced, every index
+// and primary file must be a sequence of complete records from its first to
+// its last byte — the rescan, both collectors and the upgrade walk the files
+// sequentially and silently stop at, or run through, anything else.
+func (v *fsckView) checkWalkable() {
+	for n, at := range v.idxTorn {
+		if at >= 0 {
+			v.bad("F0", "index file %d (size %d) is not a sequence of complete records: parsing stops at offset %d", n, v.idxSize[n], at)
+		}
+	}
+	for n, at := range v.priTorn {
+		if at >= 0 {
+			v.bad("F0", "primary file %d (size %d) is not a sequence of complete records: parsing stops at offset %d", n, v.priSize[n], at)
+		}
+	}
+}
+
 // Fsck checks the files of fs against each other. live is the in-memory
 // bucket table of the open store (nil when the store is closed: the snapshot
-// and/or a rescan are used instead, and compared with each other).
-func Fsck(fs *vos.MemFS, cfg Config, live []uint64) []FsckDefect {
+// and/or a rescan are used instead, and compared with each other). walk
+// enables group F0 (not applicable to crash images, whose tails may be torn).
+func Fsck(fs *vos.MemFS, cfg Config, live []uint64, walk bool) []FsckDefect {
 	v := loadFsck(fs, cfg)
 	if !v.hasIH {
 		return v.defects
+	}
+	if walk {
+		v.checkWalkable()
 	}
 	if live != nil {
 		v.checkTable(live, "live")
@@ -494,7 +520,7 @@ func (w *World) liveTable() []uint64 {
 
 // FsckOpen runs fsck on the open, flushed store.
 func (w *World) FsckOpen() *Violation {
-	defs := Fsck(w.FS, w.Cfg, w.liveTable())
+	defs := Fsck(w.FS, w.Cfg, w.liveTable(), !w.crashed)
 	if len(defs) == 0 {
 		return nil
 	}
@@ -503,7 +529,7 @@ func (w *World) FsckOpen() *Violation {
 
 // FsckClosed runs fsck on the closed store's files.
 func (w *World) FsckClosed() *Violation {
-	defs := Fsck(w.FS, w.Cfg, nil)
+	defs := Fsck(w.FS, w.Cfg, nil, !w.crashed)
 	if len(defs) == 0 {
 		return nil
 	}
